@@ -457,6 +457,91 @@ def pess_addzero(rng, fn, count):
     return done
 
 
+def ref_wrap(t, v):
+    bits = _size(t) * 8
+    v %= 1 << bits
+    if t[0] == "i" and v >= 1 << (bits - 1):
+        v -= 1 << bits
+    return v
+
+
+def ref_binop(t, op, a, b):
+    """run-time value of `a op b` at integer type t (Spec.IRArith), None where undefined"""
+    bits = _size(t) * 8
+    lo = -(1 << (bits - 1)) if t[0] == "i" else 0
+    if op == "add":
+        return ref_wrap(t, a + b)
+    if op == "sub":
+        return ref_wrap(t, a - b)
+    if op == "mul":
+        return ref_wrap(t, a * b)
+    if op in ("div", "rem"):
+        if b == 0 or (t[0] == "i" and a == lo and b == -1):
+            return None
+        q = abs(a) // abs(b)
+        q = -q if (a < 0) != (b < 0) else q
+        return q if op == "div" else a - q * b
+    if op == "shl":
+        return ref_wrap(t, a << b) if 0 <= b < bits else None
+    if op == "shr":
+        return (a >> b) if 0 <= b < bits else None
+    return None
+
+
+def boundary_value(rng, t):
+    bits = _size(t) * 8
+    lo, hi = (-(1 << (bits - 1)), (1 << (bits - 1)) - 1) if t[0] == "i" else (0, (1 << bits) - 1)
+    k = rng.randrange(bits)
+    pool = [lo, hi, lo + 1, hi - 1, 0, 1, 2, 3, 7, 1 << k, (1 << k) - 1, rng.randint(lo, hi), rng.randint(0, 40)]
+    if t[0] == "i":
+        pool += [-1, -2, -7, -8, -(1 << k), -rng.randint(1, 300)]
+    v = rng.choice(pool)
+    return min(max(v, lo), hi)
+
+
+def pess_constexpr(rng, fn, count):
+    """operand v -> v + ((c1 op c2) - k) where k is the run-time value of c1 op c2: a foldable constant
+    expression whose wrong folding changes the value of v"""
+    nm, defs = Namer(fn), def_table(fn)
+    done = 0
+    for _ in range(count * 5):
+        if done >= count:
+            break
+        b = rng.choice(blocks_of(fn))
+        idxs = [k for k in range(2, len(b)) if b[k][0] != "phi"]
+        if not idxs:
+            continue
+        k = rng.choice(idxs)
+        i = b[k]
+        slots = [(c, j) for c, j in operand_slots(i, phi=False) if c[j].startswith("%")
+                 and isinstance(defs.get(c[j][1:], (None,))[0], str) and defs[c[j][1:]][0] in INT_TYPES]
+        if i[0] in ("fcall", "pcall"):
+            slots = [sl for sl in slots if sl[1] != (3 if i[0] == "fcall" else 1)]
+        if not slots:
+            continue
+        c, j = rng.choice(slots)
+        v = c[j]
+        t = defs[v[1:]][0]
+        op = rng.choice(["add", "sub", "mul", "rem", "shl", "shr", "shr", "rem"])
+        c1 = boundary_value(rng, t)
+        c2 = boundary_value(rng, t)
+        if op in ("shl", "shr"):
+            c2 = rng.randrange(_size(t) * 8)
+        kv = ref_binop(t, op, c1, c2)
+        if kv is None:
+            continue
+        n1, n2, ne, nk, nd, nn = (nm.val("qc"), nm.val("qc"), nm.val("qe"), nm.val("qk"), nm.val("qd"), nm.val("qa"))
+        new = [["const", "%" + n1, t, str(c1)], ["const", "%" + n2, t, str(c2)],
+               ["binop", "%" + ne, t, op, "%" + n1, "%" + n2], ["const", "%" + nk, t, str(kv)],
+               ["binop", "%" + nd, t, "sub", "%" + ne, "%" + nk], ["binop", "%" + nn, t, "add", v, "%" + nd]]
+        c[j] = "%" + nn
+        b[k:k] = new
+        for ins in new:
+            defs[dst_of(ins)] = (t, b[1], ins)
+        done += 1
+    return done
+
+
 def pess_cjump(rng, fn, count):
     """jump T  ->  cjump c1 ? c2 (constant) with the taken arm = T and a fresh never-taken arm"""
     nm = Namer(fn)
@@ -471,8 +556,8 @@ def pess_cjump(rng, fn, count):
         tgt = b[-1][1]
         t = rng.choice(list(INT_TYPES))
         lo, hi = (-(1 << (_size(t) * 8 - 1)), (1 << (_size(t) * 8 - 1)) - 1) if t[0] == "i" else (0, (1 << (_size(t) * 8)) - 1)
-        x = rng.choice([lo, hi, 0, 1, rng.randint(lo, hi)])
-        y = rng.choice([lo, hi, 0, 1, x, rng.randint(lo, hi)])
+        x = rng.choice([lo, hi, 0, 1, hi // 2 + 1, rng.randint(lo, hi)])
+        y = rng.choice([lo, hi, 0, 1, x, x, x, hi // 2 + 1, rng.randint(lo, hi)])
         cond = rng.choice(list(CONDS))
         truth = {"eq": x == y, "ne": x != y, "lt": x < y, "gt": x > y, "le": x <= y, "ge": x >= y}[cond]
         c1, c2, nb = nm.val("pc"), nm.val("pc"), nm.blk(fn[1] + "_pn")
@@ -592,9 +677,9 @@ def pess_demote_phi(rng, fn, count):
     return done
 
 
-def pessimize(rng, mod, addzero=3, cjump=2, demote=2, demote_phi=1):
+def pessimize(rng, mod, addzero=3, cjump=2, demote=2, demote_phi=1, constexpr=3):
     """in place; returns counts"""
-    counts = {"addzero": 0, "cjump": 0, "demote": 0, "demote_phi": 0}
+    counts = {"addzero": 0, "cjump": 0, "demote": 0, "demote_phi": 0, "constexpr": 0}
     for fn in funcs_of(mod):
         if demote_phi:
             counts["demote_phi"] += pess_demote_phi(rng, fn, rng.randint(0, demote_phi))
@@ -602,6 +687,8 @@ def pessimize(rng, mod, addzero=3, cjump=2, demote=2, demote_phi=1):
             counts["demote"] += pess_demote(rng, fn, rng.randint(0, demote))
         if cjump:
             counts["cjump"] += pess_cjump(rng, fn, rng.randint(0, cjump))
+        if constexpr:
+            counts["constexpr"] += pess_constexpr(rng, fn, rng.randint(0, constexpr))
         if addzero:
             counts["addzero"] += pess_addzero(rng, fn, rng.randint(0, addzero))
     return counts
